@@ -34,6 +34,7 @@ type Interp struct {
 	sharedWrites []string
 	freshN     int
 	lockDepth  int
+	syncWrites int
 	mapOrder   int // 0 insertion order, 1 reversed
 	errRange   Value
 	errSyntax  Value
